@@ -273,19 +273,25 @@ class DULServiceProvider(threading.Thread):
             data = self.dul_socket.recv(self.max_pdu_length or 65536)
         except socket.error:
             self.event.append(fsm.Events.EVT_17)
-            self.dul_socket.close()
-            self.dul_socket = None
+            self._release_socket()
             return True
 
         if not data:
             # Remote port has been closed
             self.event.append(fsm.Events.EVT_17)
-            self.dul_socket.close()
-            self.dul_socket = None
+            self._release_socket()
             return True
 
         self.raw_pdu += data
         return False
+
+    def _release_socket(self):
+        # Connection is gone already, error reported by close() changes nothing
+        try:
+            self.dul_socket.close()
+        except socket.error:
+            pass
+        self.dul_socket = None
 
     def _process_incoming(self):
         if len(self.raw_pdu) < 6:
